@@ -156,7 +156,10 @@ class ShardResult:
         for lab in out.labels:
             self.labels[lab] += 1
         for f in out.failures:
-            kid = match_known(known, predicates, case, f)
+            fcase = case
+            if isinstance(f.info, dict) and f.info.get("inner_case"):
+                fcase = f.info["inner_case"]  # found by a search that wraps another campaign: that campaign's case replays it
+            kid = match_known(known, predicates, fcase, f)
             if kid is not None:
                 self.excluded[kid] += 1
                 continue
@@ -164,9 +167,9 @@ class ShardResult:
                 f.bucket, {"count": 0, "case": None, "detail": "", "size": 1 << 60, "seed": shard_seed}
             )
             b["count"] += 1
-            s = case_size(case)
+            s = case_size(fcase)
             if s < b["size"]:
-                b.update(case=case, detail=f.detail, size=s, seed=shard_seed)
+                b.update(case=fcase, detail=f.detail, size=s, seed=shard_seed)
 
 
 def _silence() -> None:
@@ -632,3 +635,81 @@ def run_check(modname: str, tier: str, seed: int, replay: str | None = None) -> 
         f"violations={len(violations)}, {wall:.1f}s"
     )
     return 1 if violations else 0
+
+
+# ------------------------------------------------------------------------------------------------
+# coverage-guided search over a campaign's structured cases (thorough tiers): fuzz/hyp_fuzz.py as a subprocess
+
+
+def cov_fuzz_campaign(pid: str, inner: list, procs: int = 16) -> Campaign:
+    """`inner`: [(campaign name, executions per process), ...]; process i fuzzes inner[i % len(inner)]."""
+    import subprocess
+
+    script = os.path.join(boot.VERIF, "fuzz", "hyp_fuzz.py")
+
+    def enum():
+        try:
+            base = int(os.environ.get("VERIF_SEED", "1") or "1")
+        except ValueError:
+            base = 1
+        for i in range(procs):
+            name, runs = inner[i % len(inner)]
+            yield {"inner": name, "seed": base * 1000 + i + 1, "runs": runs}
+
+    def body(data) -> Outcome:
+        import random
+
+        out = Outcome()
+        out.labels.append("inner:" + data["inner"])
+        work = boot.fresh_dir("covfuzz")
+        corpus = os.path.join(work, "corpus")
+        os.makedirs(corpus)
+        rnd = random.Random(int(data["seed"]))  # seed corpus: byte strings long enough to decode into non-minimal cases
+        for i in range(16):
+            with open(os.path.join(corpus, f"s{i}"), "wb") as f:
+                f.write(bytes(rnd.randrange(256) for _ in range(rnd.choice([256, 512, 1024, 2048]))))
+        report = os.path.join(work, "report.json")
+        env = dict(os.environ, VERIF_REPO=boot.REPO, HYP_FUZZ_REPORT=report, PYTHONHASHSEED="0", TMPDIR=work)
+        cmd = [sys.executable, script, pid, data["inner"], f"-runs={int(data['runs'])}", f"-seed={int(data['seed'])}",
+               "-max_len=4096", "-len_control=0", f"-artifact_prefix={work}/", corpus]  # fmt: skip
+        noaslr = ["setarch", os.uname().machine, "-R"]
+        try:
+            if subprocess.run([*noaslr, "true"], stdout=subprocess.DEVNULL, stderr=subprocess.DEVNULL).returncode == 0:
+                cmd = noaslr + cmd
+        except OSError:
+            pass
+        rc, log = 0, ""
+        try:
+            p = subprocess.run(cmd, env=env, cwd=work, stdout=subprocess.PIPE, stderr=subprocess.STDOUT, text=True, timeout=1500)
+            rc, log = p.returncode, p.stdout
+        except subprocess.TimeoutExpired:
+            rc = -9
+            out.labels.append("covfuzz-inconclusive-time-budget")  # a budget hit is never a verdict
+        rep = {}
+        if os.path.exists(report):
+            try:
+                with open(report) as f:
+                    rep = json.load(f)
+            except ValueError:
+                rep = {}
+        boot.rm(work)
+        if rc == 4 or "atheris_missing" in rep:
+            out.labels.append("atheris-missing")
+            return out
+        execs = int(rep.get("execs", 0))
+        out.units = max(1, execs)
+        out.nontrivial = int(rep.get("nontrivial", 0)) >= 100
+        out.labels.append(f"valid-cases~{int(rep.get('valid', 0)) // 1000}k")
+        for kid, n in rep.get("known", {}).items():
+            out.labels.append(f"known:{kid}")
+        for bucket, info in sorted(rep.get("failures", {}).items()):
+            if bucket.startswith("HARNESS:"):
+                raise RuntimeError(f"hyp_fuzz {pid}/{data['inner']}: {info.get('detail')}")
+            out.fail("covfuzz-" + bucket, info.get("detail", ""), {"inner_case": info.get("case")})
+        if rc not in (0, 3, -9) and not out.failures:
+            raise RuntimeError(f"hyp_fuzz {pid}/{data['inner']} crashed rc={rc}: {log[-600:]}")
+        return out
+
+    return Campaign("cov-fuzz", body, enumerate=enum, quick=0, thorough=procs, shards_thorough=procs,
+                    describe="atheris coverage-guided search over the structured cases of: "
+                             + ", ".join(f"{n} ({r} executions per process)" for n, r in inner))  # fmt: skip
